@@ -124,6 +124,29 @@ pub fn run(r: &Report) {
     let txs = all_txs(r);
     r.set_extra("transactions", json!(txs.len()));
     txs.par_iter().for_each(|t| check_tx(r, t, "tx"));
+    // The accessors are pure functions of the value: hidden state (a memo keyed by something that does not determine
+    // the answer, e.g. the txid, which ignores witnesses) would make an answer depend on the calls made before it.
+    // Histories: the whole case list once more on ONE thread, forwards and then backwards, each transaction also
+    // directly after its own witness-stripped and witness-swapped variants (same txid, other sizes).
+    {
+        let seq: Vec<&RTx> = txs.iter().filter(|t| t.enc_full().len() < 5000).collect();
+        for t in seq.iter().chain(seq.iter().rev()) {
+            check_tx(r, t, "tx/sequential");
+            if t.has_witness() {
+                let mut stripped = (*t).clone();
+                for i in &mut stripped.ins {
+                    i.wit = Default::default();
+                }
+                for o in &mut stripped.outs {
+                    o.surj.clear();
+                    o.rp.clear();
+                }
+                check_tx(r, &stripped, "tx/sequential/stripped-after-full");
+                check_tx(r, t, "tx/sequential/full-after-stripped");
+            }
+        }
+        r.add_extra_count("sequential_history_cases", 2 * seq.len() as u64);
+    }
     // blocks
     let headers = gen::headers();
     let pool: Vec<RTx> = txs.iter().step_by(97).take(12).cloned().collect();
@@ -144,6 +167,13 @@ pub fn run(r: &Report) {
                 Err(p) => r.violation("block/panic", json!({"block": crate::engine::hex(&full)}), p),
                 Ok((s, w)) => {
                     r.trace(1);
+                    // same block after its header witness was cleared and restored (same block hash, other sizes)
+                    let mut cleared = lib.clone();
+                    cleared.header.clear_witness();
+                    let exp_cleared = elements::encode::serialize(&cleared).len();
+                    if cleared.size() != exp_cleared || lib.size() != s || lib.weight() != w {
+                        r.violation("block/size/after-clear_witness", json!({"block": crate::engine::hex(&full)}), format!("size() of the witness-cleared block = {} serialized = {}; size()/weight() of the original afterwards = {}/{} (before {}/{})", cleared.size(), exp_cleared, lib.size(), lib.weight(), s, w));
+                    }
                     if s != full.len() {
                         r.violation("block/size", json!({"block": crate::engine::hex(&full)}), format!("size()={} reference={}", s, full.len()));
                     }
